@@ -464,3 +464,37 @@ func VerifHarness_C09_AdditionKeepsTheOffsetOfTheElement() {
 	}
 	verifrt.Reach("end")
 }
+
+// C09: a sum is the value it prints - nothing below its precision survives in it: adding to a sum gives what adding
+// to the same value written afresh gives, and its element is the one of that value. Partial Dates and DateTimes,
+// amounts and units from menus (the first amount is finer than the precision or not a whole number of its units).
+func VerifHarness_C09_SumsCarryNothingBelowTheirPrecision() {
+	text := []string{"2020", "2019", "2020-01", "2020-12"}[verifrt.Choose("value", 4)]
+	first := []Quantity{verifQty(6, "months"), verifQty(11, "months"), verifQty(13, "months"), verifQty(200, "days"), verifQty(5, "weeks"), verifQty(1, "year")}[verifrt.Choose("first", 6)]
+	second := []Quantity{verifQty(6, "months"), verifQty(1, "month"), verifQty(11, "months"), verifQty(200, "days"), verifQty(1, "year")}[verifrt.Choose("second", 5)]
+	if verifrt.NondetBool("dateTime") {
+		x := MustParseDateTime(text + "T")
+		sum, err := x.Add(first)
+		verifrt.Assume(err == nil)
+		fresh := MustParseDateTime(sum.String())
+		a, errA := sum.Add(second)
+		b, errB := fresh.Add(second)
+		verifrt.Assert((errA == nil) == (errB == nil), "adding-to-a-sum-is-adding-to-the-value-it-prints")
+		if errA == nil && errB == nil {
+			verifrt.Assert(a.String() == b.String(), "adding-to-a-sum-is-adding-to-the-value-it-prints")
+		}
+	} else {
+		x := MustParseDate(text)
+		sum, err := x.Add(first)
+		verifrt.Assume(err == nil)
+		fresh := MustParseDate(sum.String())
+		a, errA := sum.Add(second)
+		b, errB := fresh.Add(second)
+		verifrt.Assert((errA == nil) == (errB == nil), "adding-to-a-sum-is-adding-to-the-value-it-prints")
+		if errA == nil && errB == nil {
+			verifrt.Assert(a.String() == b.String(), "adding-to-a-sum-is-adding-to-the-value-it-prints")
+		}
+		verifrt.Assert(sum.ToProtoDate().ValueUs == fresh.ToProtoDate().ValueUs, "the-element-of-a-sum-is-the-element-of-the-value-it-prints")
+	}
+	verifrt.Reach("end")
+}
